@@ -102,6 +102,9 @@ _chain("C03", ["ante_accept_sound", "wrong_key_rejected", "mutation_rejected", "
 _chain("C11", ["reject_frame", "readonly_frame", "undecodable_frame", "accept_shape"])
 _chain("C17", ["param_change_authorised", "change_only_that_key", "dao_authorised", "gov_unauthorised_rejected", "block_ops_keep_gov"])
 
+_chain("C07", ["slashAmount_exact", "slash_exact", "slash_noop", "doublesign_burns_all", "evidence_expired_ignored", "evidence_refused"])
+_chain("C08", ["window_step", "window_init", "counter_is_window_count", "window_frame", "minSigned_rounding"])
+
 # development-only entry: the chain family with all monitors, no Lean module (not in MANIFEST)
 PROPS["XCHAIN"] = {
     "lean_modules": [], "namespaces": [],
@@ -112,6 +115,20 @@ PROPS["XCHAIN"] = {
 NOT_APPLICABLE = {}
 
 MANIFEST_TEXT = {
+    "C07": {"text": "Lean theorems over the slashing model: the slash amount is exactly trunc(p*10^6*f); a slash removes exactly min(that, stake) from "
+                    "the validator, the pool and the supply and from nobody else, force-unstaking and burning the remainder when it falls below the "
+                    "minimum; confirmed double-sign evidence inside the window burns the entire stake and tombstones; expired evidence changes nothing; "
+                    "evidence against unknown/unstaked/tombstoned validators burns nothing. Tied by differential runs with downtime, evidence of every "
+                    "age, queued burns, fractions 0 / 1 / 10^-18 / truncating values.",
+            "note": "four defects in this area were found and fixed (recorded); refused evidence halts BeginBlock by design of the code",
+            "technique": "Lean 4 proof over executable model + differential correspondence"},
+    "C08": {"text": "Lean refinement theorem: the signing info and missed-bit array of a validator are a ring-buffer representation (WinRel) of the history "
+                    "of missed flags since the last reset; one handleValidatorSignature call appends the flag, the counter is the number of misses among "
+                    "the last W flags, and the validator is slashed+jailed exactly when height > start+W, the count exceeds W - minSigned, it exists and "
+                    "is not jailed, after which the window is empty; MinSignedPerWindow is the half-even rounding of minSigned*W. For every W >= 1. "
+                    "Tied by differential runs with W in {1,2,3,5,10}, fractions {0,.05,.5,.95,1} and per-validator reliabilities.",
+            "note": "window size and fraction are configuration: constant over the history the theorem speaks about",
+            "technique": "Lean 4 refinement proof over executable model + differential correspondence"},
     "C03": {"text": "Lean theorems over the ante/runTx model with ideal signatures: an accepted transaction was signed by the key of the signer the "
                     "message declares (key supplied or looked up), no signed field was changed after signing, pays at least the required fee from the "
                     "signer's own balance into the collector; a wrong key, any post-signing mutation or a low fee is rejected without state change. "
